@@ -185,7 +185,11 @@ fn run(c: &C) -> Option<(String, Vec<usize>)> {
     if kind == 1 { run_typed::<()>(c) } else { run_typed::<Vec<u8>>(c) }
 }
 
-fn exec(t: &[String]) -> Option<String> { run(&dec(t)?).map(|x| x.0) }
+fn exec(t: &[String]) -> Option<String> {
+    // a sort through the real chunk files, judged by the driver as a C01 case (see c01::real_file_cases)
+    if t.first().map(|s| s.as_str()) == Some("sorter") { return super::c01::exec_tokens(&t[1..]); }
+    run(&dec(t)?).map(|x| x.0)
+}
 
 fn shrink(t: &[String]) -> Vec<Vec<String>> {
     let Some(c) = dec(t) else { return vec![] };
@@ -227,6 +231,7 @@ fn payloads(sizes: &[usize], rng: &mut Rng) -> Vec<Vec<u8>> {
 
 fn gen(rng: &mut Rng, tier: Tier) -> Vec<Case> {
     let mut out = vec![];
+    for t in super::c01::real_file_cases(rng, tier) { let mut v = vec!["sorter".to_string()]; v.extend(t); out.push(Case::new("real-files", v)); }
     let size_sets: Vec<Vec<usize>> = match tier {
         Tier::Quick => vec![vec![10, 9000, 5], vec![1], vec![8191], vec![8192], vec![8193, 3], vec![70000], vec![3, 4, 5, 6], vec![]],
         Tier::Thorough => vec![vec![10, 9000, 5], vec![1], vec![2, 1], vec![8191], vec![8192], vec![8193, 3], vec![65536], vec![70000, 9], vec![3, 4, 5, 6], vec![], vec![200, 8000, 200, 8000], vec![8183], vec![8184], vec![8185]],
